@@ -36,9 +36,9 @@ integer_re = re.compile(
     |
         0o(_?[0-7])+ # octal
     |
-        0x(_?[\da-f])+ # hex
+        0x(_?[0-9a-f])+ # hex
     |
-        [1-9](_?\d)* # decimal
+        [1-9](_?[0-9])* # decimal
     |
         0(_?0)* # decimal zero
     )
